@@ -245,9 +245,15 @@ def run(ctx, model_ok):
         ("\n\nx := 1\n{\n    x := 2\n    x := 3\n}\n", "t.sd:6:5: 'x' is already defined in the current scope at [5:5]\n"),
         ("x := 1\r\nx := 2\r\n", "t.sd:2:1: 'x' is already defined in the current scope at [1:1]\n"),
         ("#!/usr/bin/env seed\n# second comment\nprint(y)\n", "t.sd:3:7: 'y' is not defined\n"),
+        # a repeated parameter cites the earlier one's own line and column
+        ("fn area(width,\n        height,\n        scale,\n        width) {\n}\n", "t.sd:4:9: 'width' is already declared at [1:9]\n"),
+        ("fn area(width, height,\n   width) {\n}\n", "t.sd:2:4: 'width' is already declared at [1:9]\n"),
+        ("g := fn(\n  a,\n    b, a) {\n}\ng(1, 2, 3)\n", None),
     ]
     for (src, want), r in zip(drv, core.cli_batch([d[0] for d in drv])):
         ctx.nontrivial(("driver-positions", src[:12]))
         ctx.count("driver_positions:cli", 1)
+        if want is None:
+            continue
         if r["status"] != "103" or r["stderr"] != want or r["stdout"] != "":
             ctx.violation(f"a name diagnostic through the command line: expected {want!r}", src, {"cli": r})
